@@ -321,6 +321,8 @@ def laws1():
         out.append({"law": "all([p]) = p", "a": {"k": "all", "id": 901, "tid": 902, "cs": [{"tid": 903, "c": p}]}, "b": p})
         out.append({"law": "map_event(id, p) = p", "a": {"k": "map_event", "id": 901, "tid": 902, "f": "id", "c": p}, "b": p})
         out.append({"law": "map_effect(id, p) = p", "a": {"k": "map_effect", "id": 901, "tid": 902, "f": "id", "c": p}, "b": p})
+        out.append({"law": "Command::from(p) = p.into() = p",
+                    "a": {"k": "into", "id": 901, "tid": 902, "id2": 903, "tid2": 904, "via_from": True, "c": p}, "b": p})
     for a, b in itertools.combinations(ls[1:], 2):
         x, y = pairfresh(a, b)
         out.append({"law": "and(p, q) = and(q, p)",
